@@ -153,7 +153,13 @@ def stepEv (st : MonSt) (x : EvActs) : Except String MonSt := do
           -- due at this very instant (executed, BlockingBegin reported later in the same instant)
           let codeNow := ({ sd with stale := [] } |> unfiredBlocks).foldl (fun cb (_, dur, bypass, replace, due) =>
             if due == t then codeUpdate cb t (dur * 1000) bypass replace else cb) sd.codeBlk
-          let codeAllows := match codeNow with
+          -- the code executes the blocks that are due at this instant one at a time, with other
+          -- events of the same instant in between: the flag may be that of any of them that updates
+          let dueNowAllows := ({ sd with stale := [] } |> unfiredBlocks).any fun (_, dur, bypass, replace, due) =>
+            due == t && bypass && (replace || match sd.codeBlk with
+              | some (exp, _) => t + dur * 1000 > exp
+              | none => true)
+          let codeAllows := dueNowAllows || match codeNow with
             | some (_, fl) => fl
             | none => false
           let tag := if e.bypass && codeAllows then "[F7-bypass-overwrite] "
